@@ -27,6 +27,8 @@ type Clause struct {
 	Text string
 	Expr *SExpr
 	Name string // optional label: "ensures [label] expr"
+	Target string // callback clauses: the function-typed parameter
+	Var    string // cbupdate: ghost variable assigned
 	File string
 	Line int
 }
@@ -76,7 +78,7 @@ type SpecFile struct {
 var blockKW = map[string]bool{"func": true, "iface": true, "extern": true, "spec": true, "ghost": true, "pred": true, "lemma": true, "data": true, "axiom": true}
 var clauseKW = map[string]bool{"requires": true, "ensures": true, "invariant": true, "assigns": true, "nopanic": true, "mode": true, "inline": true,
 	"pure": true, "assumed": true, "loop": true, "props": true, "trace": true, "fresh": true, "assume": true, "unroll": true, "class": true,
-	"noinline": true, "returns": true, "event": true, "havoc": true, "panics": true, "bounded": true, "check": true, "opaque": true, "maxpaths": true, "frame": true, "modifies": true, "reads": true, "trusted": true, "ghostset": true, "defer": true, "expectfail": true}
+	"noinline": true, "returns": true, "event": true, "havoc": true, "panics": true, "bounded": true, "check": true, "opaque": true, "maxpaths": true, "frame": true, "modifies": true, "reads": true, "trusted": true, "ghostset": true, "ghostvar": true, "cbrequires": true, "cbupdate": true, "callbacks": true, "params": true, "defer": true, "expectfail": true}
 
 func parseSpecFile(path string) ([]*Block, error) {
 	data, err := os.ReadFile(path)
@@ -163,7 +165,30 @@ func parseSpecFile(path string) ([]*Block, error) {
 				}
 			case "props":
 				cur.Props = append(cur.Props, strings.Fields(strings.ReplaceAll(rest, ",", " "))...)
-			case "requires", "ensures", "assume", "check":
+			case "requires", "ensures", "assume", "check", "ghostvar":
+				cur.Clauses = append(cur.Clauses, cl)
+			case "cbrequires", "cbupdate":
+				// "<param> [label] : expr"  /  "<param> : var = expr"
+				i := strings.Index(rest, ":")
+				if i < 0 {
+					return nil, fmt.Errorf("%s:%d: %s needs '<param> : ...'", path, ln+1, kw)
+				}
+				head := strings.TrimSpace(rest[:i])
+				cl.Text = strings.TrimSpace(rest[i+1:])
+				cl.Name = ""
+				hf := strings.Fields(head)
+				cl.Target = hf[0]
+				if len(hf) > 1 {
+					cl.Name = strings.Trim(hf[1], "[]")
+				}
+				if kw == "cbupdate" {
+					j := strings.Index(cl.Text, "=")
+					if j < 0 {
+						return nil, fmt.Errorf("%s:%d: cbupdate needs 'var = expr'", path, ln+1)
+					}
+					cl.Var = strings.TrimSpace(cl.Text[:j])
+					cl.Text = strings.TrimSpace(cl.Text[j+1:])
+				}
 				cur.Clauses = append(cur.Clauses, cl)
 			default:
 				cur.Flags[kw] = rest
@@ -181,7 +206,7 @@ func parseSpecFile(path string) ([]*Block, error) {
 		}
 		for _, cl := range all {
 			switch cl.Kind {
-			case "requires", "ensures", "invariant", "assume", "check":
+			case "requires", "ensures", "invariant", "assume", "check", "cbrequires", "cbupdate":
 				e, err := parseSExpr(cl.Text)
 				if err != nil {
 					return nil, fmt.Errorf("%s:%d: %v in %q", cl.File, cl.Line, err, cl.Text)
